@@ -290,6 +290,8 @@ def colspecs():
     yield 'America/Havana', 'date2'
     yield 'Atlantic/Azores', 'date2'
     yield 'UTC', 'date2'
+    yield 'America/St_Johns', 'date2'
+    yield 'Australia/Lord_Howe', 'date2'
 
 
 CLASSCOLS = ['is_archive', 'is_audio', 'is_book', 'is_doc', 'is_font', 'is_image', 'is_source', 'is_video']
@@ -401,7 +403,8 @@ def eval_longpath(env, group):
 
 
 # the day on which local midnight occurs twice: Havana 2021-11-07 (01:00 CDT -> 00:00 CST = 05:00Z), Azores 2021-10-31 (01:00 -> 00:00 = 01:00Z)
-DATE2 = {'America/Havana': 1636261200, 'Atlantic/Azores': 1635642000, 'UTC': 1636261200}
+# (the last two: zones whose offset changes in the middle of a UTC hour)
+DATE2 = {'America/Havana': 1636261200, 'Atlantic/Azores': 1635642000, 'UTC': 1636261200, 'America/St_Johns': 1710048600, 'Australia/Lord_Howe': 1728142200}
 
 
 def eval_date2(env, group):
@@ -426,6 +429,8 @@ def eval_date2(env, group):
     outs = []
     try:
         bounds_ = [t0 - 86400 - 3600, t0 - 86400, t0 - 3 * 3600, t0 + 3 * 3600, t0 + 86400, t0 + 86400 + 3600]
+        if zone in ('America/St_Johns', 'Australia/Lord_Howe'):
+            bounds_ += [t0 - 1200, t0 + 1200, t0 - 2, t0, t0 + 2]
         conds = []
         for a, b in itertools.combinations(bounds_, 2):
             la, lb = lit(a), lit(b)
@@ -441,7 +446,8 @@ def eval_date2(env, group):
             if group['only'] is not None and cond != group['only']:
                 continue
             q = 'path from . where %s into list' % cond
-            o = env.run([q], cwd=root, env={'TZ': zone})
+            # (the files arrive in the order of their time stamps: each is looked at right after its neighbour on the other side of the change)
+            o = env.run([q], cwd=root, preload=True, env={'TZ': zone, 'FSX_READDIR': 'sorted'})
             exp = sorted(p_ for p_, t in times.items() if pred(t))
             r = {'case': {'variant': group['variant'], 'col': zone, 'kind': 'date2', 'cond': cond}, 'nt': 0 < len(exp) < len(times),
                  'layer': 'date2', 'trans': len(times)}
